@@ -215,7 +215,7 @@ func viol(key, desc string, kind string, a []string) {
 
 func runEther(a []string) string {
 	c, l, seed, ht := atoi(a[0]), atoi(a[1]), uint64(atoi(a[2])), uint16(atoi(a[3]))
-	src, dst := marg(lib.UnHex(a[4])), marg(lib.UnHex(a[5]))
+	src, dst := marg(unhex(a[4])), marg(unhex(a[5]))
 	buf, full, old := mkbuf(c, l, seed)
 	e := packet.EncodeEther(buf, ht, net.HardwareAddr(src), net.HardwareAddr(dst))
 	if c >= 14 && len(src) == 6 && len(dst) == 6 {
@@ -228,8 +228,8 @@ func runEther(a []string) string {
 
 func runEthPl(a []string) string {
 	c, l, seed, ht := atoi(a[0]), atoi(a[1]), uint64(atoi(a[2])), uint16(atoi(a[3]))
-	src, dst := marg(lib.UnHex(a[4])), marg(lib.UnHex(a[5]))
-	mode, payload, extra := a[6], sarg(lib.UnHex(a[7])), atoi(a[8])
+	src, dst := marg(unhex(a[4])), marg(unhex(a[5]))
+	mode, payload, extra := a[6], sarg(unhex(a[7])), atoi(a[8])
 	buf, full, old := mkbuf(c, l, seed)
 	e := packet.EncodeEther(buf, ht, net.HardwareAddr(src), net.HardwareAddr(dst))
 	var out packet.Ether
@@ -267,7 +267,7 @@ func runEthPl(a []string) string {
 
 func runIP4(a []string) string {
 	c, l, seed, ttl := atoi(a[0]), atoi(a[1]), uint64(atoi(a[2])), byte(atoi(a[3]))
-	src, dst := addr(lib.UnHex(a[4])), addr(lib.UnHex(a[5]))
+	src, dst := addr(unhex(a[4])), addr(unhex(a[5]))
 	buf, full, old := mkbuf(c, l, seed)
 	ip := packet.EncodeIP4(buf, ttl, src, dst)
 	return encOK(ip, full, old) + " " + rbIP4(ip)
@@ -282,8 +282,8 @@ func v4orZero(b []byte) []byte {
 
 func runIP4Pl(a []string) string {
 	c, l, seed, ttl := atoi(a[0]), atoi(a[1]), uint64(atoi(a[2])), byte(atoi(a[3]))
-	srcb, dstb := lib.UnHex(a[4]), lib.UnHex(a[5])
-	proto, mode, payload := byte(atoi(a[6])), a[7], sarg(lib.UnHex(a[8]))
+	srcb, dstb := unhex(a[4]), unhex(a[5])
+	proto, mode, payload := byte(atoi(a[6])), a[7], sarg(unhex(a[8]))
 	buf, full, old := mkbuf(c, l, seed)
 	ip := packet.EncodeIP4(buf, ttl, addr(srcb), addr(dstb))
 	var out packet.IP4
@@ -320,7 +320,7 @@ func runUDP(a []string) string {
 func runUDPPl(a []string) string {
 	c, l, seed := atoi(a[0]), atoi(a[1]), uint64(atoi(a[2]))
 	sp, dp := uint16(atoi(a[3])), uint16(atoi(a[4]))
-	mode, payload := a[5], sarg(lib.UnHex(a[6]))
+	mode, payload := a[5], sarg(unhex(a[6]))
 	buf, full, old := mkbuf(c, l, seed)
 	u := packet.EncodeUDP(buf, sp, dp)
 	var out packet.UDP
@@ -362,11 +362,11 @@ func parseClass(frame []byte) string {
 // the composition used by the library's own senders
 func runFrame4(a []string) string {
 	c, l, seed := atoi(a[0]), atoi(a[1]), uint64(atoi(a[2]))
-	smac, dmac := marg(lib.UnHex(a[3])), marg(lib.UnHex(a[4]))
+	smac, dmac := marg(unhex(a[3])), marg(unhex(a[4]))
 	ttl := byte(atoi(a[5]))
-	sipb, dipb := lib.UnHex(a[6]), lib.UnHex(a[7])
+	sipb, dipb := unhex(a[6]), unhex(a[7])
 	sp, dp := uint16(atoi(a[8])), uint16(atoi(a[9]))
-	data := sarg(lib.UnHex(a[10]))
+	data := sarg(unhex(a[10]))
 	buf, full, old := mkbuf(c, l, seed)
 	ether := packet.EncodeEther(buf, 0x0800, net.HardwareAddr(smac), net.HardwareAddr(dmac))
 	ip4 := packet.EncodeIP4(ether.Payload(), ttl, addr(sipb), addr(dipb))
@@ -593,6 +593,7 @@ func main() {
 		}
 	}
 	g.aliasCases()
+	g.wideCases()
 	runROPhase(r)
 	runConc(r, 8)
 	if r.Thorough() {
